@@ -15,12 +15,13 @@ struct Recipe {
     size_t bodyLen = 0; unsigned tag = 1;
     std::vector<long> chunks;     // stream: sizes; -1 = an integer value written with operator<<, -2 = c-string literal
     std::vector<int> flushAfter;  // stream: flush after chunk i?
+    int moveAt = -1;              // stream: the ResponseStream object is moved (to the heap) before chunk moveAt is written (-1: never)
     // filled by the handler
     std::atomic<int> ran{0}; std::atomic<int> fulfilled{0}, rejected{0}; std::atomic<long> promiseValue{-1}; std::atomic<long> reportedSize{-1};
     std::atomic<int> threw{0};
 };
 static std::map<std::string, Recipe*> g_recipes;
-static const int CODES[] = {200, 201, 202, 203, 206, 301, 302, 400, 401, 403, 404, 405, 409, 410, 418, 422, 429, 500, 501, 503, 511, 599};
+static const int CODES[] = {204, 304, 200, 201, 202, 203, 206, 301, 302, 400, 401, 403, 404, 405, 409, 410, 418, 422, 429, 500, 501, 503, 511, 599};
 static void apply_headers(Http::ResponseWriter& response, const Recipe& rc) {
     using namespace Http::Header;
     for (auto& h : rc.headers) {
@@ -49,15 +50,21 @@ struct RecipeHandler : public Http::Handler {
                 p.then([rc](ssize_t v) { rc->promiseValue = (long)v; rc->fulfilled++; }, [rc](std::exception_ptr) { rc->rejected++; });
                 rc->reportedSize = (long)response.getResponseSize();
             } else {
-                auto stream = response.stream((Http::Code)rc->code);
-                for (size_t i = 0; i < rc->chunks.size(); i++) {
+                auto first = response.stream((Http::Code)rc->code);
+                std::unique_ptr<Http::ResponseStream> moved;
+                Http::ResponseStream* st = &first;
+                for (size_t i = 0; i <= rc->chunks.size(); i++) {
+                    // handlers commonly keep a stream for later (moved into a closure or onto the heap) with bytes still unflushed
+                    if ((int)i == rc->moveAt) { moved.reset(new Http::ResponseStream(std::move(*st))); st = moved.get(); }
+                    if (i == rc->chunks.size()) break;
+                    Http::ResponseStream& stream = *st;
                     long n = rc->chunks[i];
                     if (n == -1) stream << (int)(1000 + (int)i * 101);
                     else if (n == -2) stream << "literal-chunk";
                     else { std::string d = tagged_body(rc->tag + (unsigned)i, (size_t)n, false); stream.write(d.data(), (std::streamsize)d.size()); }
                     if (rc->flushAfter[i]) stream << Http::flush;
                 }
-                stream << Http::ends;
+                (*st) << Http::ends;
                 rc->fulfilled++;
             }
         } catch (const std::exception&) { rc->threw++; }
@@ -79,7 +86,10 @@ static void gen_recipe(Rng& r, Recipe& rc, bool allowStream) {
     int nc = r.range(0, 4); std::set<std::string> cn;
     for (int i = 0; i < nc; i++) { std::string n = mg::tok(r, 1, 6, mg::CKNAME); if (!cn.insert(n).second) continue; rc.cookies.push_back({n, mg::tok(r, 0, 10, mg::CKVAL)}); }
     rc.tag = (unsigned)r.range(1, 200);
-    if (rc.kind == 0) {
+    // 204 / 304 carry no body by definition: only the empty fixed body is generated for them, where every reading of the framing agrees
+    if (rc.code == 204 || rc.code == 304) rc.kind = 0;
+    if (rc.kind == 0 && (rc.code == 204 || rc.code == 304)) { rc.bodyLen = 0; }
+    else if (rc.kind == 0) {
         int w = r.range(0, 5);
         if (w == 0) rc.bodyLen = (size_t)r.range(0, 3);
         else if (w <= 3) { size_t p = 512u << r.below(10); long d = r.range(-300, 64); rc.bodyLen = (size_t)std::max<long>(0, (long)p + d); }   // around buffer doublings (head included)
@@ -87,12 +97,13 @@ static void gen_recipe(Rng& r, Recipe& rc, bool allowStream) {
     } else {
         int nch = r.range(0, 8);
         static const long SZ[] = {1, 15, 16, 17, 255, 256, 257, 4095, 4096, 4097, 65535, 65536, 65537};
+        rc.moveAt = r.chance(1, 2) ? r.range(0, nch) : -1;
         for (int i = 0; i < nch; i++) { int w = r.range(0, 9); long n = w <= 5 ? r.pick(SZ) : w == 6 ? -1 : w == 7 ? -2 : w == 8 ? 0 : r.range(1, 3000); rc.chunks.push_back(n); rc.flushAfter.push_back(r.chance(1, 2)); }
     }
 }
 static std::string recipe_text(const Recipe& rc) {
     std::string s = std::string(rc.kind ? "stream" : "fixed") + " code=" + std::to_string(rc.code) + " headers=" + std::to_string(rc.headers.size()) + " cookies=" + std::to_string(rc.cookies.size());
-    if (rc.kind == 0) s += " body=" + std::to_string(rc.bodyLen); else { s += " chunks="; for (size_t i = 0; i < rc.chunks.size(); i++) s += std::to_string(rc.chunks[i]) + (rc.flushAfter[i] ? "f," : ","); }
+    if (rc.kind == 0) s += " body=" + std::to_string(rc.bodyLen); else { s += " moveAt=" + std::to_string(rc.moveAt) + " chunks="; for (size_t i = 0; i < rc.chunks.size(); i++) s += std::to_string(rc.chunks[i]) + (rc.flushAfter[i] ? "f," : ","); }
     return s;
 }
 // one exchange; returns the violation key ("" = fine); out: message + bytes on the wire
